@@ -18,13 +18,16 @@ package props
 
 import (
 	"bytes"
+	"encoding/hex"
 	"fmt"
 	"io"
+	"math/rand"
 	"sort"
 	"strings"
 	"sync"
 
 	"github.com/parquet-go/parquet-go"
+	"github.com/parquet-go/parquet-go/bloom"
 
 	"verifharness/core"
 	"verifharness/gen"
@@ -379,9 +382,15 @@ func RunC14Compose(ctx *core.Ctx) {
 	ctx.SetRule(c14Rule)
 	rp := c14LoadReplay(ctx)
 	if rp != nil {
+		if req := rp.str("request"); strings.HasPrefix(req, "io.merge2 ") || strings.HasPrefix(req, "io.bloomprobe ") {
+			c14ScriptedL2(ctx, req)
+			return
+		}
 		if _, ok := rp.num("compose_failing_call"); !ok {
 			return
 		}
+	} else {
+		defer c14ScriptedL2(ctx, "")
 	}
 	srcs := c14ComposeSources(ctx)
 	type job struct {
@@ -558,4 +567,350 @@ func c14ComposeJob(ctx *core.Ctx, srcs []*c14Source, p *c14Pipeline, consumer st
 			}
 		}
 	}
+}
+
+// ---------------------------------------------------------------- scripted sources: L1 + L2 of the
+// two-way merge (MIRROR M2.readRows / SPEC Src of IoFaultRead.lean) and of the lazy bloom probe
+
+// c14Script is the SPEC `Src` of the model: a RowReader that delivers its rows in order and fails
+// once failIn more rows have been delivered (sticky); rows are (key, index of the input).
+type c14Script struct {
+	rem         []int64
+	failIn      int // -1 = never
+	eager       bool
+	errWithRows bool
+	tag         int32
+}
+
+func (s *c14Script) ReadRows(buf []parquet.Row) (int, error) {
+	avail := len(s.rem)
+	if s.failIn >= 0 && s.failIn < avail {
+		avail = s.failIn
+	}
+	n := len(buf)
+	if avail < n {
+		n = avail
+	}
+	for i := 0; i < n; i++ {
+		buf[i] = append(buf[i][:0], parquet.Int64Value(s.rem[i]).Level(0, 0, 0), parquet.Int32Value(s.tag).Level(0, 0, 1))
+	}
+	s.rem = s.rem[n:]
+	if s.failIn >= 0 {
+		s.failIn -= n
+	}
+	switch {
+	case s.failIn == 0:
+		if n == 0 || s.errWithRows {
+			return n, errC14Injected
+		}
+	case len(s.rem) == 0:
+		if n == 0 || s.eager {
+			return n, io.EOF
+		}
+	}
+	return n, nil
+}
+
+func (s *c14Script) String() string {
+	rows := "-"
+	if len(s.rem) > 0 {
+		var parts []string
+		for _, k := range s.rem {
+			parts = append(parts, fmt.Sprint(k))
+		}
+		rows = strings.Join(parts, ",")
+	}
+	f := "-"
+	if s.failIn >= 0 {
+		f = fmt.Sprint(s.failIn)
+	}
+	b := func(x bool) string {
+		if x {
+			return "1"
+		}
+		return "0"
+	}
+	return rows + ":" + f + ":" + b(s.eager) + ":" + b(s.errWithRows)
+}
+
+func c14RandScript(r *rand.Rand, tag int32) *c14Script {
+	n := []int{0, 1, 2, 23, 24, 25, 47, 48, 49, 71, 72, 73, 100, 168, 169, 200, 361, 400}[r.Intn(18)]
+	if r.Intn(4) == 0 {
+		n = r.Intn(60)
+	}
+	s := &c14Script{failIn: -1, eager: r.Intn(2) == 0, errWithRows: r.Intn(2) == 0, tag: tag}
+	k := int64(r.Intn(5))
+	step := []int64{1, 2, 3, 10}[r.Intn(4)]
+	for i := 0; i < n; i++ {
+		s.rem = append(s.rem, k)
+		if r.Intn(4) > 0 { // runs of equal keys, ties with the other input
+			k += r.Int63n(step) + int64(r.Intn(2))
+		}
+		if r.Intn(40) == 0 {
+			k += 50 // a gap: the other input wins a long streak (the gallop of the real code)
+		}
+	}
+	if r.Intn(3) > 0 {
+		c := []int{0, 1, 23, 24, 25, 72, 73, n - 1, n, n + 1, r.Intn(n + 1)}
+		s.failIn = c[r.Intn(len(c))]
+		if s.failIn < 0 {
+			s.failIn = 0
+		}
+	}
+	return s
+}
+
+// c14Merge2Real runs the real MergeRowReaders over the two scripts; answer in the format of `io.merge2`
+func c14Merge2Real(a, b *c14Script, caps []int) (ans string, proj [2][]int64, last string) {
+	defer func() {
+		if p := recover(); p != nil {
+			ans, last = fmt.Sprintf("PANIC %v | %s", p, c14Stack()), "panic"
+		}
+	}()
+	m := parquet.MergeRowReaders([]parquet.RowReader{a, b}, c14MCompare)
+	var calls []string
+	last = "n"
+	for _, c := range caps {
+		buf := make([]parquet.Row, c)
+		n, err := m.ReadRows(buf)
+		var rs []string
+		for _, row := range buf[:n] {
+			t := int(row[1].Int32())
+			proj[t] = append(proj[t], row[0].Int64())
+			rs = append(rs, fmt.Sprintf("%c%d", 'a'+t, row[0].Int64()))
+		}
+		res := "n"
+		switch {
+		case err == io.EOF:
+			res = "e"
+		case err != nil:
+			res = "x"
+		}
+		rows := "-"
+		if len(rs) > 0 {
+			rows = strings.Join(rs, ",")
+		}
+		calls = append(calls, res+":"+rows)
+		last = res
+		if err != nil {
+			break
+		}
+	}
+	if len(calls) == 0 {
+		return "ok -", proj, last
+	}
+	return "ok " + strings.Join(calls, "|"), proj, last
+}
+
+type c14ProbeStub struct {
+	data []byte
+	err  error
+}
+
+func (s c14ProbeStub) ReadAt(p []byte, off int64) (int, error) { return copy(p, s.data), s.err }
+
+func c14ScriptedL2(ctx *core.Ctx, only string) {
+	d := ctx.Driver()
+	if d == nil {
+		return
+	}
+	r := ctx.Rand("c14/compose/scripted")
+	var reqs, wants []string
+	// --- two-way merge sessions
+	nm := ctx.Scale(1500, 15000)
+	if only != "" {
+		nm = 0
+		if f := strings.Fields(only); len(f) == 5 && f[0] == "io.merge2" {
+			parse := func(s string, tag int32) *c14Script {
+				p := strings.Split(s, ":")
+				sc := &c14Script{failIn: -1, tag: tag}
+				if len(p) != 4 {
+					return sc
+				}
+				if p[0] != "-" {
+					for _, x := range strings.Split(p[0], ",") {
+						var k int64
+						fmt.Sscan(x, &k)
+						sc.rem = append(sc.rem, k)
+					}
+				}
+				if p[1] != "-" {
+					fmt.Sscan(p[1], &sc.failIn)
+				}
+				sc.eager, sc.errWithRows = p[2] == "1", p[3] == "1"
+				return sc
+			}
+			var caps []int
+			if f[4] != "-" {
+				for _, x := range strings.Split(f[4], ",") {
+					var c int
+					fmt.Sscan(x, &c)
+					caps = append(caps, c)
+				}
+			}
+			c14Merge2Case(ctx, parse(f[2], 0), parse(f[3], 1), caps, &reqs, &wants)
+		}
+	}
+	for i := 0; i < nm; i++ {
+		a, b := c14RandScript(r, 0), c14RandScript(r, 1)
+		if i%3 == 0 {
+			a.failIn = -1 // the fault on the second input only (the first input's branch is separate code)
+		}
+		var caps []int
+		for j := 0; j < 80; j++ {
+			caps = append(caps, []int{1, 2, 3, 7, 16, 24, 37, 64, 100, 300}[r.Intn(10)])
+			if r.Intn(50) == 0 {
+				caps[j] = 0
+			}
+		}
+		c14Merge2Case(ctx, a, b, caps, &reqs, &wants)
+	}
+	nmerge := len(reqs)
+	// --- the lazy bloom filter probe
+	np := ctx.Scale(600, 6000)
+	type probeCase struct{ x uint64; stale, blk []byte; n int; res string }
+	var pcs []probeCase
+	if only != "" {
+		np = 0
+		if f := strings.Fields(only); len(f) == 7 && f[0] == "io.bloomprobe" {
+			var pc probeCase
+			var x32 uint64
+			fmt.Sscan(f[2], &x32)
+			pc.x = x32 // a one-block filter: only the low 32 bits of the hash matter
+			pc.stale, _ = hex.DecodeString(f[3])
+			pc.blk, _ = hex.DecodeString(f[4])
+			fmt.Sscan(f[5], &pc.n)
+			pc.res = f[6]
+			pcs = append(pcs, pc)
+		}
+	}
+	for i := 0; i < np; i++ {
+		pc := probeCase{x: r.Uint64() & 0xffffffff, stale: make([]byte, bloom.BlockSize), blk: make([]byte, bloom.BlockSize)}
+		switch r.Intn(3) {
+		case 1:
+			r.Read(pc.stale)
+		case 2:
+			for j := range pc.stale {
+				pc.stale[j] = 0xFF
+			}
+		}
+		flt := bloom.MakeSplitBlockFilter(pc.blk)
+		if r.Intn(4) > 0 {
+			flt.Insert(pc.x) // the key is present
+		}
+		for j := r.Intn(6); j > 0; j-- {
+			flt.Insert(r.Uint64())
+		}
+		pc.n = []int{0, 1, 4, 15, 16, 17, 28, 31, 32}[r.Intn(9)]
+		pc.res = []string{"e", "x"}[r.Intn(2)]
+		if pc.n == bloom.BlockSize && r.Intn(2) == 0 {
+			pc.res = "n"
+		}
+		pcs = append(pcs, pc)
+	}
+	for _, pc := range pcs {
+		var rerr error
+		switch pc.res {
+		case "e":
+			rerr = io.EOF
+		case "x":
+			rerr = errC14Injected
+		}
+		req := fmt.Sprintf("io.bloomprobe 0 %d %s %s %d %s", pc.x&0xffffffff, hex.EncodeToString(pc.stale), hex.EncodeToString(pc.blk), pc.n, pc.res)
+		want := bloom.MakeSplitBlockFilter(append([]byte{}, pc.blk...)).Check(pc.x)
+		ctx.Case(req, pc.n < bloom.BlockSize)
+		ctx.Hist("probe.delivered", fmt.Sprint(pc.n))
+		// the pool hands blocks out per P: a probe that lands on another P meets another stale
+		// block; the answer of the model is accepted from any of three attempts
+		var reals []string
+		for try := 0; try < 3; try++ {
+			bloom.CheckSplitBlock(bytes.NewReader(pc.stale), bloom.BlockSize, 0) // leaves `stale` in the pool
+			ok, err := bloom.CheckSplitBlock(c14ProbeStub{pc.blk[:pc.n], rerr}, bloom.BlockSize, pc.x)
+			cls := "n"
+			switch {
+			case err == io.EOF:
+				cls = "e"
+			case err != nil:
+				cls = "x"
+			}
+			if err == nil && ok != want {
+				// L1: a conforming source, a nil error, and an answer that is not the filter's
+				ctx.Fail("L1", "bloom-probe-wrong-answer-nil-error delivered="+map[bool]string{true: "short", false: "all"}[pc.n < bloom.BlockSize],
+					fmt.Sprintf("CheckSplitBlock over a ReadAt that delivers %d of 32 bytes with %s answers (%v, nil); the block says %v", pc.n, pc.res, ok, want),
+					map[string]any{"request": req, "answer": ok, "block_says": want})
+				break
+			}
+			reals = append(reals, fmt.Sprintf("ok %d %s", map[bool]int{false: 0, true: 1}[ok], cls))
+		}
+		reqs = append(reqs, req)
+		wants = append(wants, strings.Join(reals, " / "))
+	}
+	ans, err := d.AskMany(reqs)
+	if err != nil {
+		ctx.Fail("L2", "driver-error", err.Error(), nil)
+		return
+	}
+	for i := range reqs {
+		if i < nmerge {
+			if ans[i] != wants[i] {
+				ctx.Fail("L2", "merge2-session-differs", "a session of MergeRowReaders over two scripted sources and its Lean mirror (M2.readRows) disagree",
+					map[string]any{"request": reqs[i], "model": headOf(ans[i], 600), "real": headOf(wants[i], 600), "first_difference": c14DigestDiff(wants[i], ans[i])})
+			} else {
+				ctx.Hist("scripted.l2", "merge2-session-equal")
+			}
+			continue
+		}
+		match := false
+		for _, w := range strings.Split(wants[i], " / ") {
+			match = match || w == ans[i]
+		}
+		if !match && wants[i] != "" {
+			ctx.Fail("L2", "bloom-probe-differs", "bloom.CheckSplitBlock over a stub ReaderAt and its Lean mirror (probe) disagree",
+				map[string]any{"request": reqs[i], "model": ans[i], "real": wants[i]})
+		} else {
+			ctx.Hist("scripted.l2", "bloom-probe-equal")
+		}
+	}
+}
+
+// one scripted two-way merge session: L1 (written from the property: a session that ends with
+// io.EOF has handed out every row of both inputs, in the order of each input; a fault that bites
+// does not end in io.EOF; no panic) and the request for the L2 comparison
+func c14Merge2Case(ctx *core.Ctx, a, b *c14Script, caps []int, reqs, wants *[]string) {
+	var cs []string
+	for _, c := range caps {
+		cs = append(cs, fmt.Sprint(c))
+	}
+	capStr := "-"
+	if len(cs) > 0 {
+		capStr = strings.Join(cs, ",")
+	}
+	req := fmt.Sprintf("io.merge2 0 %s %s %s", a, b, capStr)
+	rows := [2][]int64{append([]int64{}, a.rem...), append([]int64{}, b.rem...)}
+	bites := (a.failIn >= 0 && a.failIn < len(a.rem)) || (b.failIn >= 0 && b.failIn < len(b.rem))
+	ans, proj, last := c14Merge2Real(a, b, caps)
+	ctx.Case(req, bites)
+	ctx.Hist("merge2.end", last)
+	ctx.Hist("merge2.bites", fmt.Sprint(bites))
+	detail := map[string]any{"request": req, "session_ends": last}
+	switch {
+	case last == "panic":
+		ctx.Fail("L1", "scripted-merge2-panics", "MergeRowReaders over two scripted sources panics", map[string]any{"request": req, "panic": ans})
+	case last == "e":
+		for t := 0; t < 2; t++ {
+			if fmt.Sprint(proj[t]) != fmt.Sprint(rows[t]) {
+				detail["input"] = t
+				detail["rows_of_input_in_output"] = len(proj[t])
+				detail["rows_of_input"] = len(rows[t])
+				key := "scripted-merge2-eof-with-rows-missing"
+				if !bites {
+					key = "scripted-merge2-alters-rows"
+				}
+				ctx.Fail("L1", key, fmt.Sprintf("the merge of two scripted sources ends with io.EOF, no call returned an error, and the output holds %d of the %d rows of input %d", len(proj[t]), len(rows[t]), t), detail)
+				break
+			}
+		}
+	}
+	*reqs = append(*reqs, req)
+	*wants = append(*wants, ans)
 }
